@@ -190,13 +190,15 @@ static carquet_status_t encode_levels(
         (uint8_t)((rle_size >> 16) & 0xFF),
         (uint8_t)((rle_size >> 24) & 0xFF)
     };
-    carquet_buffer_append(output, len_bytes, 4);
+    status = carquet_buffer_append(output, len_bytes, 4);
 
     /* Append the RLE-encoded data */
-    carquet_buffer_append(output, rle_buffer.data, rle_buffer.size);
+    if (status == CARQUET_OK) {
+        status = carquet_buffer_append(output, rle_buffer.data, rle_buffer.size);
+    }
     carquet_buffer_destroy(&rle_buffer);
 
-    return CARQUET_OK;
+    return status;
 }
 
 /* Accumulate the raw levels of one batch; a page carries exactly one encoded
@@ -638,9 +640,16 @@ carquet_status_t carquet_page_writer_finalize(
     thrift_write_struct_end(&enc);  /* End DataPageHeader */
     thrift_write_struct_end(&enc);  /* End PageHeader */
 
-    /* Append compressed data after header */
-    carquet_buffer_append(&writer->page_buffer, compressed.data, compressed.size);
+    /* Append compressed data after header (the encoder latches a failed header append) */
+    status = enc.status;
+    if (status == CARQUET_OK) {
+        status = carquet_buffer_append(&writer->page_buffer, compressed.data, compressed.size);
+    }
     carquet_buffer_destroy(&compressed);
+
+    if (status != CARQUET_OK) {
+        return status;
+    }
 
     *page_data = writer->page_buffer.data;
     *page_size = writer->page_buffer.size;
